@@ -180,6 +180,8 @@ std::vector<std::string> gen_plan(uint64_t seed, std::string* mode_out = nullptr
    case 7: wts = {2, 1, 3, 4, 4, 6, 3, 2, 1, 0.5, 4, 2, 5, 1, 0.5}; break;
    default: wts = {2, 0.5, 5, 5, 2, 6, 8, 3, 2, 0.3, 0, 0, 0, 0, 0}; break;
    }
+   // a third of the general / thdm / lifecycle / mixed / convert histories hand their handles between client threads
+   const bool threads = (mode == 0 || mode == 4 || mode == 6 || mode == 7 || mode == 8) && r.chance(0.35);
    // most runs start from a usable handle so that deep states are reached
    if (mode != 4 && mode != 1 && r.chance(0.8)) {
       p.push_back(mline(0, "gm2calc_mssmnofv_new"));
@@ -217,6 +219,7 @@ std::vector<std::string> gen_plan(uint64_t seed, std::string* mode_out = nullptr
                                          : "x errstr " + std::to_string(r.chance(0.5) ? r.range(-2, 6) : YT_VALUES[r.below(12)])); break;
       }
    }
+   if (threads) for (auto& l : p) { if (l.compare(0, 3, "tw ") == 0) continue; const double u = r.uniform(0, 1); if (u < 0.3) l = "@1 " + l; else if (u < 0.45) l = "@2 " + l; }
    return p;
 }
 
@@ -442,7 +445,9 @@ int main(int argc, char** argv)
          if (hist.back().empty() && hist.size() > 1) hist.pop_back();
          RunResult rr; sim::Fnv hh; uint64_t calls = 0;
          for (size_t k = 0; k < hist.size(); ++k) {
-            rr = run_plan(hist[k], k, nullptr, &prog, k + 1 == hist.size() || hist.size() < 8);
+            // context replays must allocate exactly like the seeded worker did (address reuse is part of what they
+            // reproduce): no trace collection there
+            rr = run_plan(hist[k], k, nullptr, &prog, hist.size() == 1);
             hh.u64(rr.hash); calls += rr.calls;
             if (!rr.sig.empty() && k + 1 == hist.size() && hist.size() > 1) rr.detail = "history " + std::to_string(k + 1) + " of " + std::to_string(hist.size()) + " in this process: " + rr.detail;
          }
